@@ -148,3 +148,60 @@ Example C18_ex_quic :
   | _ => False
   end.
 Proof. vm_compute. repeat split. Qed.
+
+(* ======================================================================================================
+   C18 over the regenerated parrot table (Gen/Parrots.v): the premise of C18_keys_retained ("one share per classical group,
+   at most one hybrid share") is a theorem about every shipped parrot, the class of finding two-hybrid-shares/* is empty
+   among them, and the SHAPE of the retained keys (which curve sits in Ecdhe / ExtraEcdhe / MlkemEcdhe, whether Mlkem is
+   set) is a function of the share list alone - for every crypto instance, stream and cursor, no law needed.
+   (Model/ParrotNeg.v, Proofs/ParrotNegS.v, Proofs/ParrotNegC.v.)
+   ====================================================================================================== *)
+From UV Require Model.Preset Model.ParrotNeg Gen.Parrots Proofs.ParrotNegS Proofs.ParrotNegC.
+
+Theorem C18_parrots_keyshares_ok : forallb ParrotNegS.keyshares_ok Parrots.all = true.
+Proof. exact ParrotNegS.parrots_keyshares_ok. Qed.
+Theorem C18_parrots_two_hybrid_exceptions :
+  map Preset.p_name (filter (fun p => negb (ParrotNegS.keyshares_ok p)) Parrots.all) = [].
+Proof. exact ParrotNegS.parrots_two_hybrid_exceptions. Qed.
+
+(* the retained keys have the static shape: every instance, every share list (not only the table's) *)
+Theorem C18_retained_shape : forall (priv dkey : Type) (rnd : N -> N) (ecdh_gen : N -> N -> priv * N) (pub : N -> priv -> bytes)
+  (kem_new : bytes -> dkey) (kem_ek : dkey -> bytes) quic gv shares p0 a,
+  apply_preset priv dkey rnd ecdh_gen pub kem_new kem_ek true quic gv shares p0 = Ok a ->
+  shape_of (a_keys a) = ParrotNeg.static_shape (map ParrotNegS.pair_of shares).
+Proof. exact ParrotNegS.retained_shape. Qed.
+Print Assumptions C18_retained_shape.
+
+(* every shipped parrot, every crypto instance satisfying the laws, every stream, cursor and GREASE value: every share the
+   loop generates keeps its group, has the size of its group, and is backed - whichever of them a compliant server answers,
+   the client derives the server's secret *)
+Theorem C18_parrots : forall p, In p Parrots.all ->
+  forall (priv dkey : Type) (rnd : N -> N) (ecdh_gen : N -> N -> priv * N) (pub : N -> priv -> bytes)
+         (dh : N -> priv -> bytes -> option bytes) (kem_new : bytes -> dkey) (kem_ek : dkey -> bytes)
+         (kem_decap : dkey -> bytes -> option bytes) (kem_encap : bytes -> bytes -> bytes * bytes),
+  laws ecdh_gen pub dh kem_ek kem_decap kem_encap ->
+  forall quic gv p0 a,
+  apply_preset priv dkey rnd ecdh_gen pub kem_new kem_ek true quic gv (ParrotNeg.kshares_of (Preset.p_spec p)) p0 = Ok a ->
+  shape_of (a_keys a) = ParrotNeg.static_shape (ParrotNeg.lastS ParrotNeg.s_shares (Preset.sp_exts (Preset.p_spec p)) [])
+  /\ forall i k k', nth_error (ParrotNeg.kshares_of (Preset.p_spec p)) i = Some k -> nth_error (a_shares a) i = Some k' ->
+       generated k = true ->
+       ks_group k' = ks_group k /\ lenN (ks_data k') = share_size (ks_group k')
+       /\ forall b r sdata ssec,
+            server_flight priv pub dh kem_encap (ks_group k') (ks_data k') b r = Some (sdata, ssec) ->
+            client_secret priv dkey dh kem_decap true true (a_keys a) (ks_group k') sdata = Ok ssec.
+Proof. exact ParrotNegC.parrot_keys. Qed.
+Print Assumptions C18_parrots.
+
+(* on the toy instance: Firefox_120's two shares and Chrome_133's hybrid + X25519 shares, with the shapes the theorem predicts *)
+Example C18_ex_parrot_shapes :
+  ParrotNeg.kshares_of (Preset.p_spec Parrots.p_Firefox_120) = [mkKS 29 []; mkKS 23 []]
+  /\ match toy_apply rnd0 true false 2570 (ParrotNeg.kshares_of (Preset.p_spec Parrots.p_Firefox_120)) 0 with
+     | Ok a => shape_of (a_keys a) = mkShape 29 [23] false 0 /\ map (fun k => lenN (ks_data k)) (a_shares a) = [32; 65]
+     | _ => False end
+  /\ match toy_apply rnd0 true false 2570 (ParrotNeg.kshares_of (Preset.p_spec Parrots.p_Chrome_133)) 0 with
+     | Ok a => shape_of (a_keys a) = mkShape 29 [] true 29 /\ map (fun k => lenN (ks_data k)) (a_shares a) = [1; 1216; 32]
+     | _ => False end.
+Proof. vm_compute. repeat split; reflexivity. Qed.
+
+(* imported last, for the driver's closure scan only (lib/vcheck.py follows "Require Import" lines); nothing follows *)
+From UV Require Import Model.ParrotNeg Proofs.ParrotNegS Proofs.ParrotNegC.
